@@ -365,6 +365,10 @@ func run(r *lib.Run) {
 		dwg.Add(1)
 		go func(d int) { defer dwg.Done(); directedSynBeforeAccept(r, d) }(d)
 	}
+	for d := 0; d < r.Pick(4, 24); d++ {
+		dwg.Add(1)
+		go func(d int) { defer dwg.Done(); directedStaleTableRecord(r, d) }(d)
+	}
 	dwg.Wait()
 	r.Extra("exchanges_by_pairing_and_policy", pairSeen)
 	r.Extra("worlds", len(specs))
